@@ -276,6 +276,15 @@ fn gen_table(rng: &mut Rng, tag: u8, cid: u32, template: (&str, bool), o: &GenOp
                 }
             }
             rng.shuffle(&mut segs);
+            // the decoded HashMap groups the segments by axis: keep the abstract entry in file order
+            // (axes by first appearance, segments in order) so that the model's byte decoder can be compared
+            ds = vec![];
+            for (t, a, b) in &segs {
+                match ds.iter_mut().find(|(t2, _)| t2 == t) {
+                    Some((_, rs)) => rs.push((*a, *b)),
+                    None => ds.push((*t, vec![(*a, *b)])),
+                }
+            }
             body = body.push(segs.len() as u16);
             for (t, a, b) in segs {
                 body = body.push(tag_of(t)).push(Fixed::from_bits(a)).push(Fixed::from_bits(b));
@@ -605,6 +614,28 @@ fn c_entry(e: &AEntry, rank: &BTreeMap<String, i64>) -> String {
         },
         e.bit
     )
+}
+
+fn c_pid(id: &AId) -> String {
+    match id {
+        AId::Num(n) => format!("(IdNum {})", n),
+        AId::Str(v) => format!("(IdStr {})", cbytes(v)),
+    }
+}
+/// (table bytes as encoded, id -> uri rank) for the model's byte-level decoder
+fn c_dec(t: &ATable, rank: &BTreeMap<String, i64>) -> String {
+    let mut seen: Vec<String> = vec![];
+    let mut pairs: Vec<String> = vec![];
+    for e in &t.entries {
+        if let Some(u) = &e.uri {
+            let k = c_pid(&e.id);
+            if !seen.contains(&k) {
+                seen.push(k.clone());
+                pairs.push(format!("({}, {})", k, rank[u]));
+            }
+        }
+    }
+    format!("({}, [{}])", cbytes(&t.bytes), pairs.join("; "))
 }
 fn c_table(t: &ATable, rank: &BTreeMap<String, i64>) -> String {
     format!(
@@ -1051,7 +1082,7 @@ fn run_glyph_loop(rng: &mut Rng, tables0: &[ATable], d: &ADef, rank: &BTreeMap<S
         let sel_ranks: Vec<i64> = uris.iter().map(|u| rank.get(u).copied().unwrap_or(-2)).collect();
         let push_case = |cw: &mut CaseWriter, tables: &[ATable], after: Option<&PdObs>| {
             cw.push(format!(
-                "({}, {}, {}, {}, [({}, {})])",
+                "Case2 ({}, {}, {}, {}, [({}, {})]) []",
                 clist(tables.iter(), |t| c_table(t, rank)),
                 c_def(d),
                 copt(Some(clist(cands.iter(), |o| c_obs(o, rank)))),
@@ -1269,7 +1300,7 @@ fn f1_expected(t: &F1Table, cmap: &[(u32, u32)], d: &ADef) -> Vec<(u16, usize, u
     hit.into_iter().filter(|(i, _)| *i > 0 && !t.applied.contains(i)).map(|(i, (c, f))| (i, c.len(), f.len())).collect()
 }
 
-fn format1_generated(rng: &mut Rng, st: &mut Stats, n: usize) {
+fn format1_generated(rng: &mut Rng, st: &mut Stats, cw: &mut CaseWriter, n: usize) {
     use font_test_data::ift::IFT_BASE;
     use skrifa::MetadataProvider;
     let base = FontRef::new(IFT_BASE).unwrap();
@@ -1278,10 +1309,44 @@ fn format1_generated(rng: &mut Rng, st: &mut Stats, n: usize) {
     let tag_univ: Vec<u32> = [b"aalt", b"dlig", b"liga", b"null", b"smcp", b"rlig"].iter().map(|t| tag_u32(t)).collect();
     for ti in 0..n {
         let t = gen_format1(rng);
+        // every third font also has a format-2 "IFTX" table (mixed grouping)
+        let partner: Option<ATable> = if ti % 3 == 2 {
+            let o = GenOpts { malformed: false, mode: 1 + rng.below(3) };
+            let tp = *rng.pick(&TEMPLATES[..8]);
+            Some(gen_table(rng, 1, 2, tp, &o, st))
+        } else {
+            None
+        };
         let mut fb = FontBuilder::new();
         fb.add_raw(IFT_TAG, t.bytes.clone());
+        if let Some(p) = &partner {
+            fb.add_raw(IFTX_TAG, p.bytes.clone());
+        }
         fb.copy_missing_tables(base.clone());
         let font = fb.build();
+        // uri ranks: every entry index the format-1 table can offer + the partner's entries
+        let mut f1_idx: BTreeSet<u16> = t.entry_index.iter().copied().collect();
+        for r in &t.records {
+            for i in 0..r.2.len() as u16 {
+                f1_idx.insert(r.1 + i);
+            }
+        }
+        let f1_uri: BTreeMap<u16, String> = f1_idx.iter().map(|i| (*i, my_expand("//h/{id}", &AId::Num(*i as u32)))).collect();
+        let mut all_uris: BTreeSet<String> = f1_uri.values().cloned().collect();
+        if let Some(p) = &partner {
+            all_uris.extend(p.entries.iter().filter_map(|e| e.uri.clone()));
+        }
+        let rank: BTreeMap<String, i64> = all_uris.iter().enumerate().map(|(i, u)| (u.clone(), i as i64)).collect();
+        let c_f1 = format!(
+            "T1 (mkF1 0 1 true {} {})",
+            cbytes(&t.bytes),
+            clist(f1_uri.iter(), |(i, u)| format!("({}, {})", i, rank[u]))
+        );
+        let c_tables = match &partner {
+            Some(p) => format!("[{}; T2 ({})]", c_f1, c_table(p, &rank)),
+            None => format!("[{}]", c_f1),
+        };
+        let c_cmap = clist(cmap.iter(), |(c, g)| format!("({}, {})", c, g));
         st.count(&format!("f1gen.width{}_gm{}", if t.max_entry >= 256 { 2 } else { 1 }, if t.max_gm_entry >= 256 { 2 } else { 1 }));
         if t.records.iter().map(|r| r.2.len()).sum::<usize>() >= 2 {
             st.count("f1gen.several_entry_map_records");
@@ -1298,7 +1363,25 @@ fn format1_generated(rng: &mut Rng, st: &mut Stats, n: usize) {
             st.evaluations += 1;
             let key = format!("f1gen/{}/{}", ti, di);
             match observe_offered(&font, &real_def(&d)) {
-                Ok(Some(obs)) => {
+                Ok(Some(obs_all)) => {
+                    // ---- model case (format-1 decoder + intersection from the table bytes)
+                    let sel = observe_select(&font, &real_def(&d)).unwrap_or(None);
+                    let sel_ranks: Option<Vec<i64>> = sel.as_ref().map(|us| us.iter().map(|u| rank.get(u).copied().unwrap_or(-2)).collect());
+                    if di < 3 {
+                    cw.push(format!(
+                        "Case1 ({}, 7, {}, {}, {}, {})",
+                        c_tables,
+                        c_cmap,
+                        c_def(&d),
+                        copt(Some(clist(obs_all.iter(), |o| c_obs(o, &rank)))),
+                        copt(sel_ranks.as_ref().map(|v| czlist(v.iter().map(|x| *x as i128))))
+                    ));
+                    st.count("f1gen.model_cases");
+                    }
+                    let obs: Vec<Obs> = obs_all.iter().filter(|o| o.table == 0).cloned().collect();
+                    if t.fmt == 2 && obs.len() >= 2 {
+                        st.count("f1gen.partial_with_two_or_more_candidates");
+                    }
                     let got: Vec<(u16, usize, usize)> = obs.iter().map(|o| ((o.bit as i64 - 36 * 8) as u16, o.cp as usize, o.tags as usize)).collect();
                     let exp_cmp: Vec<(u16, usize, usize)> = if t.fmt == 3 { exp.iter().map(|e| (e.0, 0, 0)).collect() } else { exp.clone() };
                     if got != exp_cmp || obs.iter().any(|o| o.table != 0 || o.fmt != t.fmt || (t.fmt != 3 && o.order != (o.bit as u64 - 288))) {
@@ -1308,8 +1391,8 @@ fn format1_generated(rng: &mut Rng, st: &mut Stats, n: usize) {
                         st.count("f1gen.feature_entry_offered");
                         st.nontrivial(&format!("{:?}{:?}", t.bytes, d));
                     }
-                    if let Ok(Some(us)) = observe_select(&font, &real_def(&d)) {
-                        if let Some(why) = group_oracle(&obs, &us) {
+                    if let Some(us) = &sel {
+                        if let Some(why) = group_oracle(&obs_all, us) {
                             st.oracle_failure(json!({"key": "format1:group", "case": key, "what": why}));
                         }
                     }
@@ -1320,6 +1403,54 @@ fn format1_generated(rng: &mut Rng, st: &mut Stats, n: usize) {
                 Err(p) => {
                     st.oracle_failure(json!({"key": "format1:panic", "case": key, "panic": p}));
                 }
+            }
+        }
+    }
+}
+
+/// Regression probe: intersect_format1_feature_map used to compute `index * field_width * 2` in u16 (panic /
+/// wrong record with >= 16384 two-byte entry-map records before the requested one); fixed upstream
+/// (commit 9bc6adf: usize arithmetic, checked_add for the mapped index).  A panic here is reported.
+fn format1_stride_overflow_probe(st: &mut Stats) {
+    use font_test_data::ift::IFT_BASE;
+    let base = FontRef::new(IFT_BASE).unwrap();
+    let n_rec: u16 = 16385;
+    let max_entry: u16 = 300;
+    let bitmap_len = (max_entry as usize + 1 + 7) / 8;
+    let template = b"//h/{id}";
+    let header_len = 1 + 4 + 16 + 2 + 2 + 3 + 4 + 4 + bitmap_len + 2 + template.len() + 1;
+    let gm_len = 2 + 5 * 2;
+    let mut b = BeBuffer::new().push(1u8).push(0u32).extend([0u32, 0, 0, 1]).push(max_entry).push(2u16).push(Uint24::new(7));
+    b = b.push(header_len as u32).push((header_len + gm_len) as u32);
+    for _ in 0..bitmap_len {
+        b = b.push(0u8);
+    }
+    b = b.push(template.len() as u16);
+    for x in template {
+        b = b.push(*x);
+    }
+    b = b.push(3u8);
+    b = b.push(2u16).extend([1u16, 2, 1, 2, 1]);
+    b = b.push(1u16).push(Tag::new(b"liga")).push(3u16).push(n_rec);
+    let mut bytes = b.as_slice().to_vec();
+    for _ in 0..n_rec {
+        bytes.extend_from_slice(&[0, 1, 0, 2]); // (first 1, last 2): valid ranges, mapped index soon > max entry
+    }
+    let mut fb = FontBuilder::new();
+    fb.add_raw(IFT_TAG, bytes);
+    fb.copy_missing_tables(base);
+    let font = fb.build();
+    let d = SubsetDefinition::new(IntSet::<u32>::all(), FeatureSet::All, Default::default());
+    st.evaluations += 1;
+    match observe_offered(&font, &d) {
+        Err(p) => {
+            st.oracle_failure(json!({"key": "format1:stride-overflow-panic", "what": "intersect_format1_feature_map panics with 16385 two-byte entry map records", "panic": p}));
+        }
+        Ok(r) => {
+            st.count("probe.f1_large_entry_map_ok");
+            // 2 glyph-map entries + mapped entries 3..=300
+            if r.as_ref().map(|v| v.len()) != Some(300) {
+                st.oracle_failure(json!({"key": "format1:large-entry-map", "what": "unexpected number of offered entries for the 16385-record feature map", "got": format!("{:?}", r.map(|v| v.len()))}));
             }
         }
     }
@@ -1337,10 +1468,10 @@ fn main() {
     let mut st = Stats::new();
     let mut cw = CaseWriter::new(
         &dir,
-        "From Coq Require Import ZArith List. Import ListNotations. Open Scope Z_scope.\nFrom FV Require Import Lib.Cases C19.Model.",
-        "case_ty",
-        "check_case",
-        360,
+        "From Coq Require Import ZArith List. Import ListNotations. Open Scope Z_scope.\nFrom FV Require Import Lib.Cases C19.Model C19.Dec2 C19.Fmt1 C19.Cases.",
+        "ccase",
+        "check_ccase",
+        450,
     );
     let nfonts = if thorough { 3600 } else { 450 };
     for fi in 0..nfonts {
@@ -1426,13 +1557,42 @@ fn main() {
                 let rounds = if o.mode == 4 && sel.is_some() && di < 3 { run_loop(&mut rng, &tables, &d, &rank, &mut st, &key) } else { vec![] };
                 let c_pd = |v: &PdObs| clist(v.iter(), |(u, p)| format!("({}, {})", cz(*u as i128), cbool(*p)));
                 cw.push(format!(
-                    "({}, {}, {}, {}, {})",
+                    "Case2 ({}, {}, {}, {}, {}) {}",
                     clist(tables.iter(), |t| c_table(t, &rank)),
                     c_def(&d),
                     copt(off.as_ref().map(|v| clist(v.iter(), |o| c_obs(o, &rank)))),
                     copt(sel_ranks.as_ref().map(|v| czlist(v.iter().map(|x| *x as i128)))),
-                    clist(rounds.iter(), |(b, a)| format!("({}, {})", c_pd(b), copt(a.as_ref().map(|x| c_pd(x)))))
+                    clist(rounds.iter(), |(b, a)| format!("({}, {})", c_pd(b), copt(a.as_ref().map(|x| c_pd(x))))),
+                    if ai == 0 && di == 0 { clist(tables.iter(), |t| c_dec(t, &rank)) } else { "[]".to_string() }
                 ));
+                if ai == 0 && di == 0 {
+                    st.add("dec2.tables_decoded_by_model", tables.len() as u64);
+                }
+                // ---- cross-table independence: each table alone, and the two tables in swapped slots
+                if tables.len() == 2 {
+                    let alone: Vec<Result<Option<Vec<Obs>>, String>> = tables.iter().map(|t| observe_offered(&build_font(std::slice::from_ref(t)), &rd)).collect();
+                    let mut sw: Vec<ATable> = vec![tables[1].clone(), tables[0].clone()];
+                    sw[0].tag = 0;
+                    sw[1].tag = 1;
+                    let swapped = observe_offered(&build_font(&sw), &rd);
+                    st.evaluations += 3;
+                    st.count("cross.independence_probe");
+                    if let (Some(both), Ok(a), Ok(b), Ok(s)) = (&off, &alone[0], &alone[1], &swapped) {
+                        match (a, b, s) {
+                            (Some(a), Some(b), Some(s)) => {
+                                let cat: Vec<Obs> = a.iter().chain(b.iter()).cloned().collect();
+                                let strip = |v: &[Obs]| -> Vec<Obs> { v.iter().map(|o| Obs { table: 0, ..o.clone() }).collect() };
+                                let exp_sw: Vec<Obs> = strip(b).into_iter().chain(strip(a)).collect();
+                                if &cat != both || strip(s) != exp_sw {
+                                    st.oracle_failure(json!({"key": "cross-table:dependent", "case": key, "what": "candidates of a mapping table depend on the other table (alone vs together, or slot order)", "together": format!("{:?}", both), "ift_alone": format!("{:?}", a), "iftx_alone": format!("{:?}", b), "swapped": format!("{:?}", s), "def": format!("{:?}", d)}));
+                                }
+                            }
+                            _ => {
+                                st.oracle_failure(json!({"key": "cross-table:dependent", "case": key, "what": "a table that decodes together with the other one fails alone or in the other slot"}));
+                            }
+                        }
+                    }
+                }
                 // ---- distribution
                 match (&off, &sel) {
                     (None, _) => st.count("res.offered_err"),
@@ -1534,7 +1694,8 @@ fn main() {
         }
     }
     format1_oracle(&mut rng, &mut st, if thorough { 240 } else { 45 });
-    format1_generated(&mut rng, &mut st, if thorough { 4000 } else { 500 });
+    format1_generated(&mut rng, &mut st, &mut cw, if thorough { 4000 } else { 500 });
+    format1_stride_overflow_probe(&mut st);
     let shards = cw.finish();
     st.v.insert("shards".into(), shards.into());
     st.v.insert("model_cases".into(), cw.len().into());
